@@ -15,7 +15,8 @@ import time
 
 VERIF = os.path.dirname(os.path.dirname(os.path.abspath(__file__)))
 SPEC = os.path.join(VERIF, "spec")
-REPO = os.environ.get("VERIF_REPO", "/repo")
+REPO = os.environ.get("VERIF_REPO", "/repo")          # development aid: sweep seeded changes in scratch worktrees
+OUT = os.environ.get("VERIF_OUT", VERIF)               # where evidence/ and replays/ are written
 TLA_CP = "/opt/veriftools/tla/tla2tools.jar:/opt/veriftools/tla/CommunityModules-deps.jar"
 
 
@@ -478,7 +479,7 @@ class Check:
 
   def finish(self):
     wall = time.time() - self.t0
-    rdir = os.path.join(VERIF, "replays", self.pid)
+    rdir = os.path.join(OUT, "replays", self.pid)
     out_lines = []
     for fid, h in sorted(self.hit.items()):
       out_lines.append("KNOWN-FINDING: property=%s %s [%s; %d case(s) this run]" %
@@ -509,8 +510,8 @@ class Check:
     ev = {"property_id": self.pid, "tier": self.tier, "seed": self.seed, "level": "model_checking",
           "coverage": cov, "assumptions": self.assumptions, "wall_s": round(wall, 2),
           "violations": len(self.violations)}
-    os.makedirs(os.path.join(VERIF, "evidence"), exist_ok=True)
-    with open(os.path.join(VERIF, "evidence", self.pid + ".json"), "w") as fh:
+    os.makedirs(os.path.join(OUT, "evidence"), exist_ok=True)
+    with open(os.path.join(OUT, "evidence", self.pid + ".json"), "w") as fh:
       json.dump(ev, fh, indent=1, default=str)
     for l in out_lines:
       print(l)
